@@ -128,7 +128,9 @@ RBAD = '''[Coffee]
 category: Food
 '''
 K1 = '''Pattern,Merchant,Category,Subcategory,Tags
-# legacy rules
+# legacy rules (the first one only tags, with a plain lower-case tag, and matches every transaction of the world: whatever a
+# later matching rule adds for one transaction must not stay with this rule for the next)
+\\d\\d,Numbered,,,num
 ALFA,Alfa Csv,CsvFood,One,k1
 CHARLIE[amount>20],Charlie Csv,CsvShop,One,
 '''
